@@ -223,10 +223,14 @@ def run(ctx):
                     templates = dict(AUX)
                     names = []
                     for i in range(ntasks):
-                        templates[f"t{i}.html"] = make_task_template(ctx.rng) if si >= len(FIXED) else FIXED[si][i % len(FIXED[si])]
+                        templates[f"t{i}.html"] = (make_task_template(ctx.rng) if si % 7 or i == 0 else templates["t0.html"]) \
+                            if si >= len(FIXED) else FIXED[si][i % len(FIXED[si])]
                         names.append(f"t{i}.html")
                     if si < len(FIXED):
                         names = names[: len(FIXED[si])]
+                    # tasks with the same source render the same Template object (one name)
+                    first = {}
+                    names = [first.setdefault(templates[n], n) for n in names]
                     alone = [run_alone(jinja2, loop, templates, n, f"T{i}", auto) for i, n in enumerate(names)]
                     # gates of an imported module body are met by whichever task(s) find the cache empty: count them
                     # per task as in the isolated run; total <= 6
@@ -286,7 +290,7 @@ FIXED = [
     ["{% autoescape true %}{% import 'glib3.html' as L3 %}{{ L3.gm3(html) }}{% endautoescape %}",
      "{% autoescape false %}{% import 'glib3.html' as L3 %}{{ L3.gm3(html) }}{% endautoescape %}"],
 ]
-FIXED.append([DYN_PARENT[0], DYN_PARENT[0], DYN_PARENT[1]])      # one template, three tasks, three different parents
+FIXED.append([DYN_PARENT[0], DYN_PARENT[0], DYN_PARENT[0]])      # one template, three tasks, three different parents
 FIXED_AUTO = [False, False, False, True, False, False]
 
 
